@@ -250,9 +250,13 @@ class MultiLevelTransform(CompositeTransform):
                 identity = torch.eye(self.ndim, self.ndim + 1, device=self.device)
                 return identity.unsqueeze(0)
             transform = transforms[0]
-            mat = as_homogeneous_matrix(transform.tensor())
+            mat = as_homogeneous_matrix(transform.tensor()).clone()
             for transform in transforms[1:]:
-                mat += as_homogeneous_matrix(transform.tensor())
+                mat = mat + as_homogeneous_matrix(transform.tensor())
+            if len(transforms) > 1:
+                # y = x + sum_i (T_i(x) - x): sum of the matrices minus the surplus identities
+                identity = torch.eye(self.ndim, self.ndim + 1, dtype=mat.dtype, device=mat.device)
+                mat = mat - (len(transforms) - 1) * identity
             return mat
         return self.disp()
 
